@@ -114,6 +114,9 @@ theorem sort_perm {α : Type} [Inhabited α] (lt : α → α → Bool)
   obtain ⟨r', e, p, _⟩ := sortVals_spec lt hasymm htrans vs
   rw [h] at e; cases e; exact p
 
+/- Note on the totalised read `rd m i = m.getD i default` of Sort.lean: `sort_perm`/`sort_sorted` alone would also hold
+   for an algorithm reading `default` out of range; that no access leaves `left … right` is `sort_frame` (via
+   `qsortF_spec`) and, with `Option`-valued reads, the heap-level `ptr_sort` ("follows no null pointer"). -/
 theorem sort_sorted {α : Type} [Inhabited α] (lt : α → α → Bool)
     (hasymm : ∀ x y, lt x y = true → lt y x = false)
     (htrans : ∀ x y z, lt x y = true → lt y z = true → lt x z = true) (vs r : List α)
@@ -192,7 +195,11 @@ theorem nodes_inv (lk pk : Nat) (hl : 0 < lk) (hp : 0 < pk) (ops : List Op) (c :
   · exact ⟨h.2.2.1.nodup, h.2.2.1.bound, h.2.2.1.count⟩
   · exact ⟨h.2.2.2.nodup, h.2.2.2.bound, h.2.2.2.count⟩
 
-/-! ### Elements never move (chain model; the heap-level versions are `ptr_insert_returns` / `ptr_remove_returns`,
+/-! ### Elements never move — the theorems meant to be cited for C05 (import `Nstd.Seq.Props`, namespace `Nstd.Seq`):
+    chain level `never_move_insert`, `never_move_insertList`, `never_move_remove`, `never_move_swap`, `lsort_int`
+    (sort keeps the nodes, only values move); heap level (addresses) `ptr_insert_returns`, `ptr_remove_returns`,
+    `ptr_sort`, `ptr_swap`; no node is handed out twice: `nodes_inv`.
+    (chain model; the heap-level versions are `ptr_insert_returns` / `ptr_remove_returns`,
     where the surviving items keep their addresses) -/
 
 /-- `insert`: every item that was in the list stays in its node (same id, same value, same relative order); the
@@ -280,10 +287,29 @@ theorem never_move_swap (s : State) (v : Nat) (hv : v < 2) (r : Res State) (h : 
     the heap always represents the state of the chain model after the same history — the `next` links from
     `_begin` and the `prev` links from the sentinel run through exactly the model's nodes in order, the first
     item has a null `prev`, the free list (linked through `prev`) is the model's free list, no item is in
-    both, and the two models reject the same operations. -/
+    both.  (Both `run`s skip a rejected operation; that the two models reject exactly the same operations —
+    no null `next` followed, no fuel exhausted on the heap where the chain model accepts — is `ptr_step` and
+    `ptr_same_rejections` below.) -/
 theorem ptr_refines (k : Nat) (hk : 0 < k) (ops : List Ptr.POp) :
     ∃ xs fs, Ptr.Rep (Ptr.run (Ptr.init k) ops) xs fs (Ptr.runChain { bk := k } ops) :=
   Ptr.run_rep ops (Ptr.init k) [] [] { bk := k } (Ptr.rep_init k hk)
+
+/-- One operation, the sharp form: from related states the heap model and the chain model either BOTH reject the
+    operation or BOTH accept it and end in related states (in particular the heap-level loops never follow a null
+    pointer and never run out of fuel on an operation the chain model accepts). -/
+theorem ptr_step (p : Ptr.PList) (xs fs : List Nat) (s : LState) (h : Ptr.Rep p xs fs s) (op : Ptr.POp) :
+    match Ptr.step p op, Ptr.stepChain s op with
+    | none, none => True
+    | some p', some s' => ∃ xs' fs', Ptr.Rep p' xs' fs' s'
+    | _, _ => False := by
+  rcases Ptr.step_rep p xs fs s h op with ⟨e1, e2⟩ | ⟨p', s', xs', fs', e1, e2, h'⟩
+  · rw [e1, e2]; trivial
+  · rw [e1, e2]; exact ⟨xs', fs', h'⟩
+
+/-- along every history the heap model and the chain model reject exactly the same operations -/
+theorem ptr_same_rejections (k : Nat) (hk : 0 < k) (ops : List Ptr.POp) :
+    Ptr.accepted (Ptr.init k) ops = Ptr.acceptedChain { bk := k } ops :=
+  Ptr.accepted_rep ops (Ptr.init k) [] [] { bk := k } (Ptr.rep_init k hk)
 
 /-- pointer level: `insert` returns the new item, which is the `k`-th item of the new chain, in front of the
     item the iterator designated -/
